@@ -1,4 +1,5 @@
 """C07 - a join runs once, and only when its barrier is satisfied (barrier ledger)."""
+from ovf.props.c03 import parked  # noqa: F401
 from ovf.props.common import batches, family_slices, scale, ASSUME_SIM
 from ovf.workloads import conduct, mon  # noqa: F401
 from ovf.props.orders import orders  # noqa: F401
@@ -9,7 +10,7 @@ TECHNIQUE = "runtime monitoring: barrier ledger per (join, route) fed by harness
 RULE = ("generated definitions rich in joins (`join: all` and `join: N`, 2-5 inbound branches incl. failing, remediated "
         "and never-arriving ones, joins behind splits and inside counter-bounded loops) x hashed outcomes x seeded "
         "schedules, plus every completion order of small join definitions (so every arrival order relative to the "
-        "join's own start and completion); additionally the decision-shape family (exhaustive in the thorough tier, a rotating slice in the quick tier): every acyclic edge set over 4 tasks with a join x condition succeeded/failed per edge x outcome per task (4128 definitions); non-trivial = a join with >= 2 inbound tasks received >= 1 arrival; "
+        "join's own start and completion); additionally the decision-shape family (exhaustive in the thorough tier, a rotating slice in the quick tier): every acyclic edge set over 4 tasks with a join x condition succeeded/failed per edge x outcome per task (4128 definitions); inbound tasks that wait at the provider (pending / paused) while sibling branches fail into the join; non-trivial = a join with >= 2 inbound tasks received >= 1 arrival; "
         "distinct = (definition, history) digest")
 ASSUMPTIONS = ASSUME_SIM
 
@@ -37,6 +38,9 @@ def jobs(tier, seed):
                   gseed=seed + 2, scheds=2, lazy=[0, 60], p_fail=0.1, name="int-barrier-smaller-than-fan-in")
     # decision-shape family (exhaustive in the thorough tier, a rotating slice in the quick tier): every acyclic edge set over 4 tasks with a join x condition succeeded/failed per edge x outcome per task (4128 definitions)
     js += family_slices("orders", 4128, 128, tier, seed, parts=2, gen="cshape", p_fail=0.0, max_orders=120, max_completions=6, name="decision-shapes-orders")
+    # inbound tasks of a join that wait at the provider (pending / paused): the join stays satisfiable while they wait
+    js += batches("parked", scale(tier, 140, 3000), scale(tier, 10, 100), gen="dag", gseed=seed + 5, p_fail=0.3, p_park=45,
+                  P=dict(PJ, p_items=0.1, p_retry=0.05, nmax=5), scheds=2, name="inbound-task-waits-at-the-provider")
     return js
 
 
